@@ -138,7 +138,7 @@ def extra_checks(tier, workdir):
 
 
 def replay(result, workdir, seed):
-    return False, 'spec-level lemma: no program input'
+    return spline_replay('C14', result, workdir, seed)
 
 
 def replay_file(path):
